@@ -3,9 +3,13 @@ import Aergo.Props.C07
 #print axioms Aergo.Props.C07.main_chain_executed
 #print axioms Aergo.Props.C07.reoffered
 #print axioms Aergo.Props.C07.never_displaced_by_shorter
+#print axioms Aergo.Props.C07.never_displaced_by_shorter_own
 #print axioms Aergo.Props.C07.never_displaced_below_lib
 #print axioms Aergo.Props.C07.never_displaced_by_invalid
 #print axioms Aergo.Props.C07.invalid_branch_not_adopted
 #print axioms Aergo.Props.C07.switches_to_longer_valid_branch
 #print axioms Aergo.Props.C07.no_better_branch_partial
+#print axioms Aergo.Props.C07.arrival_triggers_switch
+#print axioms Aergo.Props.C07.arrival_keeps_when_not_longer
+#print axioms Aergo.Props.C07.fork_choice_over_histories
 #print axioms Aergo.Props.C07.valid_prefix_not_adopted
